@@ -19,7 +19,12 @@
    with the monotonicity of the exactness condition in the degree.
 
    Range: 2..7 control points (degree 1..6, the range of the retrace lemmas of
-   BezierFacts) and exponents with exact quadrature: [exact_deg d ex ey]. *)
+   BezierFacts) and exponents with exact quadrature: [exact_deg d ex ey].  Since the
+   repair of F29 (vertical_nodes = max(3+ex+ey+d, d*(ex+ey+1))) that is EVERY exponent
+   pair whose node count stays within the 19-node table; before, it was
+   (d-1)*(ex+ey) <= 3 only, and outside that range a split changed the computed
+   integrals: those findings are kept in section 8 as regression examples of the old
+   rule (QuadCurved.vertical_old), paired with the repaired values. *)
 From Coq Require Import QArith Lqa Lia List Sorted.
 From SV Require Import Model.Shape Spec.Spec.
 From SV Require Import Lemmas.BezierFacts Lemmas.Quadrature Lemmas.Lines Lemmas.SplitClean
@@ -64,65 +69,83 @@ Proof. intros s s' H. induction H; cbn [length]; congruence. Qed.
 (* ------------------------------------------------------------------ *)
 (* 1. the exactness range of the quadrature                            *)
 (* ------------------------------------------------------------------ *)
-(* n = 3+ex+ey+d nodes integrate d*(ex+ey)+d coefficients exactly when there are
-   at most n of them, or n+1 when n is odd (QuadCurved, sections 5 and 8) *)
+(* since the repair of F29 the rule has n = vertical_nodes d ex ey =
+   max(3+ex+ey+d, d*(ex+ey+1)) nodes for the d*(ex+ey)+d coefficients of the integrand: it
+   is exact as soon as n is within the 19-node table (QuadCurved, section 5) *)
 Definition exact_deg (d ex ey : nat) : Prop :=
-  (1 <= d)%nat /\ (3 + ex + ey + d <= 19)%nat /\
-  ((d * (ex + ey) + d <= 3 + ex + ey + d)%nat \/
-   (Nat.odd (3 + ex + ey + d) = true /\ (d * (ex + ey) + d <= 4 + ex + ey + d)%nat)).
+  (1 <= d)%nat /\ (vertical_nodes d ex ey <= 19)%nat.
 
+(* the range that was exact before the repair *)
 Lemma exact_deg_plain : forall d ex ey, (1 <= d)%nat -> ((d - 1) * (ex + ey) <= 3)%nat ->
   (3 + ex + ey + d <= 19)%nat -> exact_deg d ex ey.
 Proof.
-  intros d ex ey Hd H Hn. split; [exact Hd|]. split; [exact Hn|]. left.
-  destruct d as [|d]; [lia|]. replace (S d - 1)%nat with d in H by lia. lia.
+  intros d ex ey Hd H Hn. split; [exact Hd|].
+  rewrite (vertical_nodes_old' _ _ _ Hd H). exact Hn.
 Qed.
-Lemma exact_deg_area : forall d, (1 <= d <= 5)%nat -> exact_deg d 1 0.
-Proof.
-  intros d H. split; [lia|]. split; [lia|].
-  assert (C : d = 1%nat \/ d = 2%nat \/ d = 3%nat \/ d = 4%nat \/ d = 5%nat) by lia.
-  destruct C as [->|[->|[->|[->| ->]]]]; cbn; try (left; lia). right. split; [reflexivity|lia].
-Qed.
+Lemma exact_deg_area : forall d, (1 <= d <= 9)%nat -> exact_deg d 1 0.
+Proof. intros d H. split; [lia|]. unfold vertical_nodes. lia. Qed.
 Lemma exact_deg_line : forall ex ey, (ex + ey + 4 <= 19)%nat -> exact_deg 1 ex ey.
-Proof. intros ex ey H. apply exact_deg_plain; lia. Qed.
+Proof. intros ex ey H. split; [lia|]. rewrite vertical_nodes_line. exact H. Qed.
+Lemma exact_deg_cubic : forall d ex ey, (1 <= d <= 3)%nat -> (ex + ey <= 5)%nat ->
+  exact_deg d ex ey.
+Proof. intros d ex ey H He. split; [lia|]. unfold vertical_nodes. nia. Qed.
+Lemma exact_deg_quadratic : forall d ex ey, (1 <= d <= 2)%nat -> (ex + ey <= 8)%nat ->
+  exact_deg d ex ey.
+Proof. intros d ex ey H He. split; [lia|]. unfold vertical_nodes. nia. Qed.
 
-(* the condition only gets weaker when the degree drops *)
+(* the condition only gets weaker when the degree drops: fewer nodes are asked for *)
 Lemma exact_deg_mono : forall d d' ex ey, exact_deg d ex ey -> (1 <= d' <= d)%nat ->
   exact_deg d' ex ey.
 Proof.
-  intros d d' ex ey (Hd & Hn & H) Hd'. split; [lia|]. split; [lia|].
-  assert (Hc : d' = d \/ (d' < d)%nat) by lia. destruct Hc as [->|Hlt].
-  - destruct H as [H|[H1 H2]]; [left; lia|right; split; assumption].
-  - left. remember (ex + ey)%nat as e eqn:Ee.
-    assert (H' : (d * e <= 4 + e)%nat) by (destruct H as [H|[_ H]]; lia).
-    assert (H'' : (d' * e + e <= d * e)%nat) by nia.
-    destruct e as [|e]; lia.
+  intros d d' ex ey (Hd & Hn) Hd'. split; [lia|].
+  pose proof (vertical_nodes_mono d d' ex ey ltac:(lia)). lia.
 Qed.
 
-Lemma exact_deg_length : forall d ex ey, exact_deg d ex ey -> (d * (ex + ey) + d <= 17)%nat.
+Lemma exact_deg_degree : forall d ex ey, exact_deg d ex ey -> (1 <= d <= 16)%nat.
+Proof. intros d ex ey (Hd & Hn). pose proof (vertical_nodes_degree d ex ey Hn). lia. Qed.
+
+(* d*(ex+ey+1) <= 19 and 3+ex+ey+d <= 19: the product is not the prime 19 *)
+Lemma exact_deg_length : forall d ex ey, exact_deg d ex ey -> (d * (ex + ey) + d <= 18)%nat.
 Proof.
-  intros d ex ey (Hd & Hn & H). remember (ex + ey)%nat as e eqn:Ee.
-  assert (He : (3 + e + d <= 19)%nat) by lia.
-  assert (H' : (d * e <= 4 + e)%nat) by (destruct H as [H|[_ H]]; lia).
-  clear H Hn Ee.
-  assert (Hc : d = 1%nat \/ (2 <= d)%nat) by lia. destruct Hc as [->|Hc]; [lia|].
-  assert (He4 : (e <= 4)%nat) by nia.
-  destruct e as [|[|[|[|[|e]]]]]; lia.
+  intros d ex ey H. pose proof (exact_deg_degree _ _ _ H) as Hd16. destruct H as (Hd & Hn).
+  pose proof (vertical_nodes_ge d ex ey) as [G1 G2].
+  remember (ex + ey)%nat as e eqn:Ee.
+  assert (H1 : (3 + e + d <= 19)%nat) by lia.
+  assert (H2 : (d * e + d <= 19)%nat) by lia.
+  clear G1 G2 Hn Ee.
+  do 17 (destruct d as [|d]; [lia|]). lia.
 Qed.
 
 Theorem vertical_exact : forall s ex ey, exact_deg (degree s) ex ey ->
   vertical s ex ey == pint01 (curved_integrand s ex ey).
-Proof.
-  intros s ex ey (Hd & Hn & [H|[Ho H]]).
-  - apply vertical_curved_exact; assumption.
-  - apply vertical_curved_exact_odd; assumption.
-Qed.
+Proof. intros s ex ey (Hd & Hn). apply vertical_curved_exact; assumption. Qed.
 
 Lemma exact_deg_integrand : forall s ex ey, exact_deg (degree s) ex ey ->
-  (length (curved_integrand s ex ey) <= 17)%nat.
+  (length (curved_integrand s ex ey) <= 18)%nat.
 Proof.
   intros s ex ey H. pose proof (exact_deg_length _ _ _ H) as L. destruct H as (Hd & _).
   pose proof (length_curved_integrand s ex ey Hd). lia.
+Qed.
+
+(* Measure.pint01_affine with the bound on p that its proof needs (18 instead of 17): the
+   composed antiderivative has length p + 2 coefficients, its derivative length p + 1 <= 19 *)
+Lemma pint01_affine18 : forall p q u v,
+  (length p <= 18)%nat -> (length q <= 19)%nat ->
+  (forall x, peval q x == (v - u) * peval p (u + x * (v - u))) ->
+  pint01 q == peval (pantider p) v - peval (pantider p) u.
+Proof.
+  intros p q u v Hp Hq H.
+  set (Hc := pcomp (pantider p) [u; v - u]).
+  assert (HL : (length (pderiv Hc) <= 19)%nat).
+  { rewrite Measure.length_pderiv. unfold Hc.
+    pose proof (length_pcomp_line (pantider p) u (v - u)) as L.
+    rewrite length_pantider in L. lia. }
+  rewrite (pint01_values q (pderiv Hc) Hq HL).
+  - rewrite pint01_pderiv. unfold Hc. rewrite !peval_pcomp. cbn [peval].
+    apply Qplus_comp; [|apply Qopp_comp]; apply peval_wd; ring.
+  - intro x. rewrite H, peval_pderiv. unfold Hc. rewrite pdev_pcomp, pdev_pantider.
+    cbn [pdev peval]. setoid_replace (u + x * (v - u + x * 0)) with (u + x * (v - u)) by ring.
+    ring.
 Qed.
 
 (* ------------------------------------------------------------------ *)
@@ -207,10 +230,10 @@ Theorem vertical_part : forall q s u v ex ey,
 Proof.
   intros q s u v ex ey H Hq Hs. rewrite (vertical_exact q ex ey Hq). unfold prim.
   pose proof (exact_deg_integrand q ex ey Hq). pose proof (exact_deg_integrand s ex ey Hs).
-  apply pint01_affine; [lia|lia|].
+  apply pint01_affine18; [lia|lia|].
   intro x. apply integrand_retraces; [| |exact H].
-  - destruct Hq as (? & ? & _). lia.
-  - destruct Hs as (? & ? & _). lia.
+  - exact (exact_deg_degree _ _ _ Hq).
+  - exact (exact_deg_degree _ _ _ Hs).
 Qed.
 
 Lemma vertical_whole : forall s ex ey, exact_deg (degree s) ex ey ->
@@ -353,11 +376,18 @@ Proof.
   - unfold degree in Hd. lia.
   - apply exact_deg_plain; [lia|exact H|exact Hn].
 Qed.
-(* area: degrees 1..5 *)
-Corollary split_at_area : forall s u, (1 <= degree s <= 5)%nat ->
+(* area: degrees 1..6 (the range of the retrace lemmas; the quadrature itself allows 9) *)
+Corollary split_at_area : forall s u, (1 <= degree s <= 6)%nat ->
   vertical (fst (split_at u s)) 1 0 + vertical (snd (split_at u s)) 1 0 == vertical s 1 0.
 Proof.
-  intros s u Hd. apply split_at_vertical; [unfold degree in Hd; lia|apply exact_deg_area, Hd].
+  intros s u Hd. apply split_at_vertical; [unfold degree in Hd; lia|apply exact_deg_area; lia].
+Qed.
+(* cubics: every exponent pair with ex + ey <= 5 *)
+Corollary split_at_cubic : forall s u ex ey, (1 <= degree s <= 3)%nat -> (ex + ey <= 5)%nat ->
+  vertical (fst (split_at u s)) ex ey + vertical (snd (split_at u s)) ex ey == vertical s ex ey.
+Proof.
+  intros s u ex ey Hd He. apply split_at_vertical; [unfold degree in Hd; lia|].
+  apply exact_deg_cubic; assumption.
 Qed.
 
 (* ------------------------------------------------------------------ *)
@@ -741,28 +771,84 @@ Proof.
   - apply IH. intros s' Hs'. apply Hj. right. exact Hs'.
 Qed.
 
-(* the hypotheses in the form (d-1)*(ex+ey) <= 3 of QuadCurved *)
+(* the same with the degree and the node count spelled out: EVERY exponent pair within the
+   19-node table, degrees 1..6 *)
 Corollary split_moment_curved : forall j idx nodes j' ex ey,
+  (forall s, In s j -> (1 <= degree s <= 6)%nat /\
+                       (vertical_nodes (degree s) ex ey <= 19)%nat) ->
+  Jordan.split j idx nodes = Ok j' ->
+  jordan_vertical j' ex ey == jordan_vertical j ex ey.
+Proof.
+  intros j idx nodes j' ex ey Hj. apply split_vertical_curved.
+  intros s Hs. destruct (Hj s Hs) as (H1 & H2). split.
+  - unfold degree in H1. lia.
+  - split; [lia|exact H2].
+Qed.
+
+(* the range that was exact before the repair: (d-1)*(ex+ey) <= 3 *)
+Corollary split_moment_curved' : forall j idx nodes j' ex ey,
   (forall s, In s j -> (1 <= degree s <= 6)%nat /\ ((degree s - 1) * (ex + ey) <= 3)%nat /\
                        (3 + ex + ey + degree s <= 19)%nat) ->
   Jordan.split j idx nodes = Ok j' ->
   jordan_vertical j' ex ey == jordan_vertical j ex ey.
 Proof.
-  intros j idx nodes j' ex ey Hj. apply split_vertical_curved.
-  intros s Hs. destruct (Hj s Hs) as (H1 & H2 & H3). split.
-  - unfold degree in H1. lia.
-  - apply exact_deg_plain; [lia|exact H2|exact H3].
+  intros j idx nodes j' ex ey Hj. apply split_moment_curved.
+  intros s Hs. destruct (Hj s Hs) as (H1 & H2 & H3). split; [exact H1|].
+  rewrite (vertical_nodes_old' _ _ _ (proj1 H1) H2). exact H3.
 Qed.
 
-(* area: every degree up to 5 *)
+(* a uniform bound D <= 6 on the degrees *)
+Corollary split_moment_degree : forall D j idx nodes j' ex ey,
+  (forall s, In s j -> (1 <= degree s <= D)%nat) -> (D <= 6)%nat ->
+  (vertical_nodes D ex ey <= 19)%nat ->
+  Jordan.split j idx nodes = Ok j' ->
+  jordan_vertical j' ex ey == jordan_vertical j ex ey.
+Proof.
+  intros D j idx nodes j' ex ey Hj HD Hn. apply split_vertical_curved.
+  intros s Hs. specialize (Hj s Hs). split.
+  - unfold degree in Hj. lia.
+  - apply (exact_deg_mono D); [split; [lia|exact Hn]|lia].
+Qed.
+
+(* cubic boundaries: 3*(ex+ey+1) nodes; ex + ey <= 3 covers the moments of order <= 2
+   (at most 12 nodes), ex + ey <= 5 is what the table allows (18 nodes) *)
+Corollary split_moment_cubic5 : forall j idx nodes j' ex ey,
+  (forall s, In s j -> (1 <= degree s <= 3)%nat) -> (ex + ey <= 5)%nat ->
+  Jordan.split j idx nodes = Ok j' ->
+  jordan_vertical j' ex ey == jordan_vertical j ex ey.
+Proof.
+  intros j idx nodes j' ex ey Hj He. apply (split_moment_degree 3); [exact Hj|lia|].
+  unfold vertical_nodes. lia.
+Qed.
+Corollary split_moment_cubic : forall j idx nodes j' ex ey,
+  (forall s, In s j -> (1 <= degree s <= 3)%nat) -> (ex + ey <= 3)%nat ->
+  Jordan.split j idx nodes = Ok j' ->
+  jordan_vertical j' ex ey == jordan_vertical j ex ey.
+Proof. intros j idx nodes j' ex ey Hj He. apply split_moment_cubic5; [exact Hj|lia]. Qed.
+(* quadratic boundaries: 2*(ex+ey+1) nodes, ex + ey <= 8 *)
+Corollary split_moment_quadratic : forall j idx nodes j' ex ey,
+  (forall s, In s j -> (1 <= degree s <= 2)%nat) -> (ex + ey <= 8)%nat ->
+  Jordan.split j idx nodes = Ok j' ->
+  jordan_vertical j' ex ey == jordan_vertical j ex ey.
+Proof.
+  intros j idx nodes j' ex ey Hj He. apply (split_moment_degree 2); [exact Hj|lia|].
+  unfold vertical_nodes. lia.
+Qed.
+
+(* area: every degree up to 6, the whole range of the retrace lemmas (max(4+d, 2d) <= 12 nodes) *)
 Corollary split_area_curved : forall j idx nodes j',
+  (forall s, In s j -> (1 <= degree s <= 6)%nat) ->
+  Jordan.split j idx nodes = Ok j' -> jordan_area j' == jordan_area j.
+Proof.
+  intros j idx nodes j' Hj. unfold jordan_area. apply (split_moment_degree 6); [exact Hj|lia|].
+  vm_compute. lia.
+Qed.
+(* the range known before the repair *)
+Corollary split_area_curved5 : forall j idx nodes j',
   (forall s, In s j -> (1 <= degree s <= 5)%nat) ->
   Jordan.split j idx nodes = Ok j' -> jordan_area j' == jordan_area j.
 Proof.
-  intros j idx nodes j' Hj. unfold jordan_area. apply split_vertical_curved.
-  intros s Hs. specialize (Hj s Hs). split.
-  - unfold degree in Hj. lia.
-  - apply exact_deg_area, Hj.
+  intros j idx nodes j' Hj. apply split_area_curved. intros s Hs. specialize (Hj s Hs). lia.
 Qed.
 
 (* the straight-only theorems SplitClean.split_area / Measure.split_moment are instances *)
@@ -780,7 +866,7 @@ Corollary split_area_lines : forall j idx nodes j',
 Proof. intros j idx nodes j' Hl. apply split_moment_lines; [exact Hl|lia]. Qed.
 
 (* ------------------------------------------------------------------ *)
-(* 8. non-vacuity, and what happens outside the range                  *)
+(* 8. non-vacuity, and the rule before the repair (regression)         *)
 (* ------------------------------------------------------------------ *)
 (* the parabola cap of QuadCurved (area 4/3), its arc cut at 1/3 *)
 Definition cap_cut : jordan :=
@@ -789,23 +875,33 @@ Definition cap_cut : jordan :=
     [(1 # 3, 8 # 9); (- 1 # 3, 4 # 3); (-1, 0)] ].
 Example cap_split_value : Jordan.split cap [1%nat] [1 # 3] = Ok cap_cut.
 Proof. vm_compute. reflexivity. Qed.
+(* 3 0 and 1 2 were inside the old range, 5 0 and 2 3 are not ((2-1)*5 > 3) *)
 Example cap_split_numbers :
   length cap_cut = 3%nat /\ jordan_area cap_cut = 4 # 3 /\ jordan_area cap = 4 # 3 /\
   jordan_vertical cap_cut 3 0 = jordan_vertical cap 3 0 /\
-  jordan_vertical cap_cut 1 2 = jordan_vertical cap 1 2.
+  jordan_vertical cap_cut 1 2 = jordan_vertical cap 1 2 /\
+  jordan_vertical cap_cut 5 0 = jordan_vertical cap 5 0 /\
+  jordan_vertical cap_cut 2 3 = jordan_vertical cap 2 3.
 Proof. vm_compute. repeat split; reflexivity. Qed.
 Example cap_split_hyps :
-  (forall s, In s cap -> (1 <= degree s <= 5)%nat) /\
+  (forall s, In s cap -> (1 <= degree s <= 6)%nat) /\
   (forall s, In s cap -> (1 <= degree s <= 6)%nat /\ ((degree s - 1) * (3 + 0) <= 3)%nat /\
-                         (3 + 3 + 0 + degree s <= 19)%nat).
-Proof. split; intros s [<-|[<-|[]]]; vm_compute; lia. Qed.
+                         (3 + 3 + 0 + degree s <= 19)%nat) /\
+  (forall s, In s cap -> (1 <= degree s <= 6)%nat /\ (vertical_nodes (degree s) 2 3 <= 19)%nat) /\
+  (forall s, In s cap -> (1 <= degree s <= 2)%nat).
+Proof. split; [|split; [|split]]; intros s [<-|[<-|[]]]; vm_compute; lia. Qed.
 (* the theorems apply to it *)
 Example cap_split_by_theorem :
-  jordan_area cap_cut == jordan_area cap /\ jordan_vertical cap_cut 3 0 == jordan_vertical cap 3 0.
+  jordan_area cap_cut == jordan_area cap /\
+  jordan_vertical cap_cut 3 0 == jordan_vertical cap 3 0 /\
+  jordan_vertical cap_cut 2 3 == jordan_vertical cap 2 3 /\
+  jordan_vertical cap_cut 5 0 == jordan_vertical cap 5 0.
 Proof.
-  split.
-  - exact (split_area_curved _ _ _ _ (proj1 cap_split_hyps) cap_split_value).
-  - exact (split_moment_curved _ _ _ _ 3 0 (proj2 cap_split_hyps) cap_split_value).
+  destruct cap_split_hyps as (H1 & H2 & H3 & H4). split; [|split; [|split]].
+  - exact (split_area_curved _ _ _ _ H1 cap_split_value).
+  - exact (split_moment_curved' _ _ _ _ 3 0 H2 cap_split_value).
+  - exact (split_moment_curved _ _ _ _ 2 3 H3 cap_split_value).
+  - exact (split_moment_quadratic _ _ _ _ 5 0 H4 ltac:(lia) cap_split_value).
 Qed.
 
 (* seg_clean DOES change pieces: a straight base stored as a quadratic (middle control point
@@ -819,43 +915,88 @@ Example cap_elevated_split :
   jordan_area cap_elevated = 4 # 3.
 Proof. vm_compute. repeat split; reflexivity. Qed.
 
-(* OUTSIDE the exact range the split is visible in the numbers the library computes.
-   (a) a cubic edge and the integrand x^2 dy (first moment in x): 8 nodes for 9
-       coefficients (QuadCurved.cubic_first_moment_inexact); cutting the cubic at 1/2
-       changes the computed value (the exact integral is -13/70) *)
+(* REGRESSION: the rule before the repair of F29 (QuadCurved.vertical_old, 3+ex+ey+d nodes).
+   Outside its exact range (d-1)*(ex+ey) <= 3 the split was visible in the numbers the
+   library computed; with the repaired node count it is not (each example states both). *)
+Definition jordan_vertical_old (j : jordan) (ex ey : nat) : Q :=
+  Qred (Qsum (map (fun s => vertical_old s ex ey) j)).
+Definition jordan_area_old (j : jordan) : Q := jordan_vertical_old j 1 0.
+
+(* on polygons the two rules are the same computation *)
+Lemma jordan_vertical_old_lines : forall j ex ey, all_lines j = true ->
+  jordan_vertical_old j ex ey = jordan_vertical j ex ey.
+Proof.
+  intros j ex ey Hl. unfold jordan_vertical_old, jordan_vertical. do 2 f_equal.
+  apply map_ext_in. intros s Hs. unfold all_lines in Hl. rewrite forallb_forall in Hl.
+  destruct (is_line_inv s (Hl s Hs)) as (a & b & ->). apply vertical_old_line.
+Qed.
+
+(* (a) a cubic edge and the integrand x^2 dy (first moment in x): the old rule had 8 nodes for
+       9 coefficients (QuadCurved.old_rule_cubic_first_moment_inexact); cutting the cubic at
+       1/2 changed the computed value.  The repaired rule has 9 nodes: both values are the
+       exact integral -13/70, and equal by the theorem *)
 Definition cubic_loop : jordan := [ [(0, 0); (1, 0); (1, 1); (2, 1)]; [(2, 1); (0, 0)] ].
-Example split_changes_cubic_moment :
+Example old_rule_split_changes_cubic_moment :
   exists j', Jordan.split cubic_loop [0%nat] [1 # 2] = Ok j' /\
-    jordan_vertical cubic_loop 2 0 = - 10446620437 # 56371445760 /\
-    jordan_vertical j' 2 0 = - 2680037230357 # 14431090114560 /\
-    ~ jordan_vertical j' 2 0 == jordan_vertical cubic_loop 2 0 /\
+    jordan_vertical_old cubic_loop 2 0 = - 10446620437 # 56371445760 /\
+    jordan_vertical_old j' 2 0 = - 2680037230357 # 14431090114560 /\
+    ~ jordan_vertical_old j' 2 0 == jordan_vertical_old cubic_loop 2 0 /\
+    jordan_vertical cubic_loop 2 0 = - 13 # 70 /\
+    jordan_vertical j' 2 0 = - 13 # 70 /\
     jordan_area j' = jordan_area cubic_loop.
 Proof.
   eexists. split; [vm_compute; reflexivity|]. repeat split; try (vm_compute; reflexivity).
   Qneq_compute.
 Qed.
-(* (b) a sextic edge and the area: 10 nodes for 12 coefficients *)
+Example cubic_loop_hyps : forall s, In s cubic_loop -> (1 <= degree s <= 3)%nat.
+Proof. intros s [<-|[<-|[]]]; vm_compute; lia. Qed.
+Example split_keeps_cubic_moment : forall idx nodes j' ex ey, (ex + ey <= 3)%nat ->
+  Jordan.split cubic_loop idx nodes = Ok j' ->
+  jordan_vertical j' ex ey == jordan_vertical cubic_loop ex ey.
+Proof.
+  intros idx nodes j' ex ey He. exact (split_moment_cubic _ _ _ _ ex ey cubic_loop_hyps He).
+Qed.
+(* (b) a sextic edge and the area: the old rule had 10 nodes for 12 coefficients, the repaired
+       one has 12 *)
 Definition sextic_loop : jordan :=
   [ [(0, 0); (1, 0); (0, 1); (1, 1); (2, 0); (3, 5); (1, 7)]; [(1, 7); (0, 0)] ].
-Example split_changes_sextic_area :
+Example old_rule_split_changes_sextic_area :
   exists j', Jordan.split sextic_loop [0%nat] [1 # 2] = Ok j' /\
-    jordan_area sextic_loop = 10788720214749 # 1433600000000 /\
-    jordan_area j' = 11052939120214749 # 1468006400000000 /\
-    ~ jordan_area j' == jordan_area sextic_loop.
+    jordan_area_old sextic_loop = 10788720214749 # 1433600000000 /\
+    jordan_area_old j' = 11052939120214749 # 1468006400000000 /\
+    ~ jordan_area_old j' == jordan_area_old sextic_loop /\
+    jordan_area j' = jordan_area sextic_loop.
 Proof.
   eexists. split; [vm_compute; reflexivity|]. repeat split; try (vm_compute; reflexivity).
   Qneq_compute.
 Qed.
-(* (c) degree reduction alone: the cubic of (a) stored as a quartic.  On the quartic the rule has
-       9 nodes and is exact (-13/70); seg_clean returns the cubic, on which it is not.  A split
-       that cuts NOTHING changes the computed first moment. *)
+Example sextic_loop_hyps : forall s, In s sextic_loop -> (1 <= degree s <= 6)%nat.
+Proof. intros s [<-|[<-|[]]]; vm_compute; lia. Qed.
+Example split_keeps_sextic_area : forall idx nodes j',
+  Jordan.split sextic_loop idx nodes = Ok j' -> jordan_area j' == jordan_area sextic_loop.
+Proof. intros idx nodes j'. exact (split_area_curved _ _ _ _ sextic_loop_hyps). Qed.
+(* (c) degree reduction alone: the cubic of (a) stored as a quartic.  On the quartic the old rule
+       had 9 nodes and was exact (-13/70); seg_clean returns the cubic, on which it was not: a
+       split that cuts NOTHING changed the computed first moment.  The repaired rule gives
+       -13/70 on both. *)
 Definition quartic_loop : jordan :=
   [ [(0, 0); (3 # 4, 0); (1, 1 # 2); (5 # 4, 1); (2, 1)]; [(2, 1); (0, 0)] ].
-Example clean_changes_quartic_moment :
+Example old_rule_clean_changes_quartic_moment :
   Jordan.split quartic_loop [] [] = Ok cubic_loop /\
+  jordan_vertical_old quartic_loop 2 0 = - 13 # 70 /\
+  jordan_vertical_old cubic_loop 2 0 = - 10446620437 # 56371445760 /\
   jordan_vertical quartic_loop 2 0 = - 13 # 70 /\
-  jordan_vertical cubic_loop 2 0 = - 10446620437 # 56371445760.
+  jordan_vertical cubic_loop 2 0 = - 13 # 70.
 Proof. vm_compute. repeat split; reflexivity. Qed.
+Example quartic_loop_hyps : forall s, In s quartic_loop ->
+  (1 <= degree s <= 6)%nat /\ (vertical_nodes (degree s) 2 0 <= 19)%nat.
+Proof. intros s [<-|[<-|[]]]; vm_compute; lia. Qed.
+Example clean_keeps_quartic_moment :
+  jordan_vertical cubic_loop 2 0 == jordan_vertical quartic_loop 2 0.
+Proof.
+  exact (split_moment_curved _ _ _ _ 2 0 quartic_loop_hyps
+           (proj1 old_rule_clean_changes_quartic_moment)).
+Qed.
 
 Print Assumptions vertical_part.
 Print Assumptions split_at_vertical.
@@ -869,10 +1010,17 @@ Print Assumptions split_segment_vertical_curved.
 Print Assumptions split_pieces.
 Print Assumptions split_vertical_curved.
 Print Assumptions split_moment_curved.
+Print Assumptions split_moment_curved'.
+Print Assumptions split_moment_cubic.
+Print Assumptions split_moment_quadratic.
 Print Assumptions split_area_curved.
+Print Assumptions split_area_curved5.
 Print Assumptions split_moment_lines.
 Print Assumptions split_area_lines.
 Print Assumptions cap_split_by_theorem.
-Print Assumptions split_changes_cubic_moment.
-Print Assumptions split_changes_sextic_area.
-Print Assumptions clean_changes_quartic_moment.
+Print Assumptions old_rule_split_changes_cubic_moment.
+Print Assumptions split_keeps_cubic_moment.
+Print Assumptions old_rule_split_changes_sextic_area.
+Print Assumptions split_keeps_sextic_area.
+Print Assumptions old_rule_clean_changes_quartic_moment.
+Print Assumptions clean_keeps_quartic_moment.
